@@ -16,6 +16,8 @@ fn main() {
         "cm-record" => vh::fam_cm::record(&args),
         "bloom-record" => vh::fam_bloom::record(&args),
         "cpc-record" => vh::fam_cpc::record(&args),
+        "td-record" => vh::fam_td::record(&args),
+        "td-replay" => vh::fam_td::replay(&args),
         "hllu-record" => vh::fam_hll::record_union(&args),
         c => {
             eprintln!("unknown command {c}");
